@@ -14,7 +14,8 @@
 //!            bearing/4 N,rolling/1024,davis_b/4096 s/m,cda/16 m2}], train_mass?, c0, consist{units,pdct},
 //!            t[] (1/4 s), v[] (1/2 m/s); optional x0 [m] (front starts mid-route), tinit:"default" (initial clock 0 s
 //!            instead of t[0]), vinit:"default" (initial speed 0 instead of v[0]: rolling start), days; consist units of kind conv | bel (avh::build toy units) | hybrid (shipped default)
-//!  "sl"      realistic-scale speed-limited run on a generated single line (tolerance mode)
+//!  "sl"      realistic-scale speed-limited run on a generated single line (tolerance mode); optional x0_extra [m]
+//!            (mid-route start), dt4 (step size in 1/4 s: 2, 4, 8)
 //!
 //! Projection (abstraction function) of the toy-scale records — divisions by constants / logged fields only:
 //!  wg  = weight_static / g                      [kg]          rr  = res_rolling / weight * towed_mass   [x1024]
@@ -553,6 +554,11 @@ fn run_sl(desc: &Value, tr: &mut Tracer) -> anyhow::Result<()> {
     let init = desc.get("x0_extra").and_then(|x| x.as_f64()).map(|x| InitTrainState::new(None, Some(tlen + uc::M * x), None));
     let tsb = TrainSimBuilder::new("t".into(), tc, con, Some("A".into()), Some("B".into()), init);
     let mut sim = tsb.make_speed_limit_train_sim(&lm, Some(1), Some(days), None)?;
+    // "dt4" (optional): simulation step in 1/4 s (TrainState::new always gives 1 s; the field is public), set before
+    // the braking table is built from it
+    if let Some(d4) = desc.get("dt4").and_then(|x| x.as_f64()) {
+        sim.state.dt = uc::S * (d4 / LT);
+    }
     if let Err(e) = sim.extend_path(net.as_ref(), &route) {
         tr.emit(json!({"ev":"Rejected","what":"extend_path","msg":errtxt(&e)}));
         return Ok(());
@@ -825,6 +831,15 @@ fn gen_sl(r: &mut Rng, tier: &str) -> Value {
            "days": *r.pick(&[1i64, 7, 30, 365, 1461]),"cap": if tier == "quick" { 2500 } else { 6000 }});
     if r.chance(1, 2) {
         d["x0_extra"] = json!(r.range(1, 800));
+    }
+    // step size 1/2, 1 or 2 s (default 1 s in a third of the runs)
+    match r.range(0, 2) {
+        0 => {
+            d["dt4"] = json!(2);
+            d["cap"] = json!(2 * d["cap"].as_i64().unwrap());
+        }
+        1 => d["dt4"] = json!(8),
+        _ => {}
     }
     d
 }
